@@ -20,6 +20,9 @@ CHECKS = {
  "C09": ("fault_enumeration", "fault injection in the harness transport at every response-prefix position x write-side mode, rendezvous hook for the check-then-register window, final-state hang detection, tap-based 'complete response delivered' oracle",
          "Per scenario the read failure is placed after every prefix 0..L of the response sequence (exhaustive per scenario), with the write side failing or discarding, with calls started before, inside the check/register window (forced by rendezvous) and after the failure. Each call must have returned at the next final state; success is accepted only if the tap shows its complete response read before the failure and the result is exact.",
          "Schedules between positions are sampled (GOMAXPROCS, jitter); final-state detector and harness link are trusted.", "DESIGN.md 2/C09"),
+ "C10": ("fault_enumeration", "end-cause injection (read failure, write failure, Stop) at every trace position against a real server driven by a scripted client; handler gates order handler exit vs. Serve return; contexts sampled at Serve's return; goroutine-leak and registry check at a provably final state",
+         "For every scenario (0..8 unary + 0..8 streaming handlers parked in receive / send / on their context) each end cause is placed at every position. Serve must have returned at the next final state; a streaming handler exiting after Serve's return, a live handler context at Serve's return, a registered stream or any goroutine with goat frames left after the handlers finished is a violation.",
+         "Positions are exhaustive per scenario, schedules sampled; goroutine attribution by stack frames of the Go runtime snapshot.", "DESIGN.md 2/C10"),
 }
 NOT_YET = "check not built yet in this round (runtime-monitoring design in DESIGN.md section 2); will be claimed once its monitor exists"
 
